@@ -29,8 +29,8 @@ CHECKS = {
                       'json. Bounds: <= 40 GVCFs (200 thorough), <= 12 VDS inputs, branch factor 2..6, batch size 1..8, <= 3 '
                       'crashes per execution. Crashes inside engine writes (partially written datasets) are not generated.',
         'scenarios': [
-            {'module': 'worlds.combiner.plan', 'quick': 1500, 'thorough': 24000, 'params': {'samples': 8, 'enum_cap': 260}},
-            {'module': 'worlds.combiner.partition', 'quick': 5000, 'thorough': 120000},
+            {'module': 'worlds.combiner.plan', 'quick': 1500, 'thorough': 12000, 'params': {'samples': 8, 'enum_cap': 260}},
+            {'module': 'worlds.combiner.partition', 'quick': 5000, 'thorough': 60000},
         ],
         'expected_probes': ['resume_via_load', 'resume_via_new_combiner', 'torn_save', 'multi_level_merge',
                             'vds_and_gvcf_mixed', 'stopped_after_step', 'torn_plan_restart_from_scratch',
